@@ -137,8 +137,11 @@ def scenarios(prop, tier, seed=0):
             L.append(S('c13_p0_suspend_resume_sync', [T('A', ('suspend', 0, {'as': 's'}), ('block_on', 's'), ('resume', 's', 'resume'), ('sync', 0))], pool_max=0, R=2, B=26,
                        oracles=BASE + ('deadlock', 'suspend', 'results')))
     elif prop == 'C08':
-        L.append(S('c08_p1_await', [T('A', ('future_sync', 0, {'fut': 'ready', 'as': 'f'}), ('block_on', 'f'), ('desync', 0))], pool_max=1, R=(2 if q else 3), B=24,
-                   oracles=BASE + ('deadlock', 'fut_results', 'quiescent_complete')))
+        L.append(S('c08_p0_await', [T('A', ('future_sync', 0, {'fut': 'ready', 'as': 'f'}), ('block_on', 'f'))], pool_max=0, R=2, B=30,
+                   oracles=BASE + ('deadlock', 'fut_results')))
+        if not q:
+            L.append(S('c08_p1_await', [T('A', ('future_sync', 0, {'fut': 'ready', 'as': 'f'}), ('block_on', 'f'), ('desync', 0))], pool_max=1, R=3, B=20,
+                       oracles=BASE + ('deadlock', 'fut_results', 'quiescent_complete')))
         L.append(S('c08_p1_drop_unpolled', [T('A', ('future_sync', 0, {'fut': 'ready', 'as': 'f'}), ('drop_fut', 'f'), ('desync', 0))], pool_max=1, R=3, B=18,
                    oracles=BASE + ('deadlock', 'cancelled_clean', 'quiescent_complete')))
         L.append(S('c08_p1_drop_midway', [T('A', ('future_sync', 0, {'fut': ('gate', 0), 'as': 'f'}), ('poll', 'f'), ('poll', 'f'), ('drop_fut', 'f'), ('desync', 0))], pool_max=1, R=(2 if q else 3), B=22,
